@@ -221,6 +221,32 @@ Proof.
     rewrite app_nil_r. reflexivity.
 Qed.
 
+(* one child / attribute step of the model is the reference step *)
+Lemma fsub_step_simple k n c rest (cont : list qn -> result (list qres)) :
+  simple_comp c = true -> (forall ns, proceed k rest ns = cont ns) ->
+  fsub (S (S k)) n (c :: rest) = ref_step attrs labels RList c n cont.
+Proof.
+  intros Hc Hcont. unfold ref_step. rewrite fsub_eq.
+  unfold simple_comp in Hc. destruct (c_sep c =? SEP_CHILD)%N eqn:Ech.
+  + pose proof (sep_child_not_descend c Ech) as Hd. rewrite (fkind_child_eq k n c rest Hd).
+    destruct n as [i|id|id ms|dl id nmem f ms|ms]; cbn [has_members negb]; try reflexivity.
+    * rewrite (ffe_select attrs labels c _ Hd). apply bind_ext. intros sel. apply Hcont.
+    * cbv zeta. destruct (members_of (QRep dl id nmem f ms)) as [|m0 mem] eqn:Em; [reflexivity|].
+      rewrite (ffe_select attrs labels c _ Hd).
+      apply bind_ext. intros sel. destruct sel as [|s0 sel]; [reflexivity|]. cbn [map].
+      rewrite envelope_fold.
+      erewrite collect_ext; [reflexivity|]. intros ch _. cbv beta. rewrite Hcont. reflexivity.
+    * rewrite (ffe_select attrs labels c _ Hd). apply bind_ext. intros sel. apply Hcont.
+  + cbn [orb] in Hc. rewrite Hc. pose proof (sep_attrib_not_descend c Hc) as Hd.
+    rewrite (fkind_attr_eq k n c rest Hd).
+    destruct n as [i|id|id ms|[|] id nmem f ms|ms]; cbn [has_attributes has_factor negb orb]; try reflexivity.
+    * destruct (Query.attrs_of attrs i) as [|a ats] eqn:Ea; cbn [negb]; [reflexivity|].
+      cbn [bind app]. rewrite (ffe_select attrs labels c _ Hd). rewrite bind_assoc.
+      apply bind_ext. intros sel. cbn [bind]. apply Hcont.
+    * rewrite (ffe_select attrs labels c _ Hd). rewrite !bind_assoc.
+      apply bind_ext. intros sel. cbn [bind]. rewrite app_nil_r. apply Hcont.
+Qed.
+
 Theorem filter_sub_ref : forall cs n k, simple_path cs = true -> (2 * length cs + 1 <= k)%nat ->
   fsub k n cs = ref_nodes attrs labels cs n.
 Proof.
@@ -228,29 +254,9 @@ Proof.
   - destruct k as [|k]; [cbn in Hk; lia|]. reflexivity.
   - cbn [length] in Hk. destruct k as [|[|k]]; [lia|lia|].
     cbn [simple_path forallb] in Hsp. apply andb_prop in Hsp as [Hc Hrest].
-    assert (Hcont : forall ns, proceed k rest ns =
-              (match rest with [] => collect leaf_node | _ => collect (ref_nodes attrs labels rest) end) ns).
-    { intros ns. unfold proceed. destruct rest as [|c2 rest2]; [symmetry; apply collect_leaf_node|].
-      rewrite concat_res_collect. apply collect_ext. intros x _. apply IH; [exact Hrest|lia]. }
-    unfold ref_nodes at 1. cbn [ref_gen]. unfold ref_step. rewrite fsub_eq.
-    unfold simple_comp in Hc. destruct (c_sep c =? SEP_CHILD)%N eqn:Ech.
-    + pose proof (sep_child_not_descend c Ech) as Hd. rewrite (fkind_child_eq k n c rest Hd).
-      destruct n as [i|id|id ms|dl id nmem f ms|ms]; cbn [has_members negb]; try reflexivity.
-      * rewrite (ffe_select attrs labels c _ Hd). apply bind_ext. intros sel. apply Hcont.
-      * cbv zeta. destruct (members_of (QRep dl id nmem f ms)) as [|m0 mem] eqn:Em; [reflexivity|].
-        rewrite (ffe_select attrs labels c _ Hd).
-        apply bind_ext. intros sel. destruct sel as [|s0 sel]; [reflexivity|]. cbn [map].
-        rewrite envelope_fold.
-        erewrite collect_ext; [reflexivity|]. intros ch _. cbv beta. rewrite Hcont. reflexivity.
-      * rewrite (ffe_select attrs labels c _ Hd). apply bind_ext. intros sel. apply Hcont.
-    + cbn [orb] in Hc. rewrite Hc. pose proof (sep_attrib_not_descend c Hc) as Hd.
-      rewrite (fkind_attr_eq k n c rest Hd).
-      destruct n as [i|id|id ms|[|] id nmem f ms|ms]; cbn [has_attributes has_factor negb orb]; try reflexivity.
-      * destruct (Query.attrs_of attrs i) as [|a ats] eqn:Ea; cbn [negb]; [reflexivity|].
-        cbn [bind app]. rewrite (ffe_select attrs labels c _ Hd). rewrite bind_assoc.
-        apply bind_ext. intros sel. cbn [bind]. apply Hcont.
-      * rewrite (ffe_select attrs labels c _ Hd). rewrite !bind_assoc.
-        apply bind_ext. intros sel. cbn [bind]. rewrite app_nil_r. apply Hcont.
+    unfold ref_nodes at 1. cbn [ref_gen]. apply fsub_step_simple; [exact Hc|].
+    intros ns. unfold proceed. destruct rest as [|c2 rest2]; [symmetry; apply collect_leaf_node|].
+    rewrite concat_res_collect. apply collect_ext. intros x _. apply IH; [exact Hrest|lia].
 Qed.
 End T.
 
